@@ -82,8 +82,9 @@ class _T:
 
 
 class Scheduler:
-    def __init__(self, prefix=(), trace_files=(), trace_funcs=None, horizon=5000, spin_limit=None, opcode_funcs=(), frame_filter=None):
+    def __init__(self, prefix=(), trace_files=(), trace_funcs=None, horizon=5000, spin_limit=None, opcode_funcs=(), frame_filter=None, lock_yield=True):
         self.prefix = list(prefix)
+        self.lock_yield = lock_yield  # False: an uncontended lock acquisition is not a scheduling point (only blocking is)
         self.frame_filter = frame_filter  # callable(frame) -> bool: trace this particular frame? (e.g. only objects under test)
         self.trace_files = tuple(trace_files)
         self.trace_funcs = set(trace_funcs) if trace_funcs else None
@@ -316,7 +317,8 @@ class CoopRLock:
             return self._real.acquire(blocking, timeout)
         s = CURRENT
         me = current_tid()
-        s.yield_point(f"lock.acquire@{id(self) & 0xffff:x}")
+        if s.lock_yield:
+            s.yield_point(f"lock.acquire@{id(self) & 0xffff:x}")
         while self._owner is not None and self._owner != me:
             if not blocking:
                 return False
@@ -358,7 +360,8 @@ class CoopLock(CoopRLock):
             return self._real.acquire(blocking, timeout)
         s = CURRENT
         me = current_tid()
-        s.yield_point(f"lock.acquire@{id(self) & 0xffff:x}")
+        if s.lock_yield:
+            s.yield_point(f"lock.acquire@{id(self) & 0xffff:x}")
         while self._owner is not None:
             if not blocking:
                 return False
@@ -514,3 +517,37 @@ class Explorer:
 def explore_subtree(explorer: Explorer, prefix):
     """Explore the subtree whose root execution is `prefix` *excluding* re-running the parent: used by workers."""
     explorer.explore(prefix)
+
+
+def staged_explore(env, specs, build, new_result, min_open=24, chunk=2):
+    """Explore every spec's schedule tree on all cores.
+
+    Stage 1 (one task per spec): expand breadth-first until >= min_open open subtrees exist (or the
+    tree is exhausted).  Stage 2: each group of `chunk` open subtrees is one task.  build(spec, res)
+    must return an Explorer whose check() records into res.  Returns the list of per-task results
+    (stage-1 results carry .stage1_spec = index)."""
+
+    def stage1(i):
+        res = new_result()
+        E = build(specs[i], res)
+        open_ = E.frontier(min_open)
+        res.part("engine-A", schedules=E.executions, steps=E.steps)
+        return res.compact(), open_
+
+    def stage2(task):
+        i, prefixes = task
+        res = new_result()
+        E = build(specs[i], res)
+        for p in prefixes:
+            E.explore(p)
+        res.part("engine-A", schedules=E.executions, steps=E.steps)
+        return res.compact()
+
+    out = []
+    tasks = []
+    for i, (r, open_) in enumerate(env.parallel(stage1, list(range(len(specs))), pin=True)):
+        out.append(r)
+        for k in range(0, len(open_), chunk):
+            tasks.append((i, open_[k : k + chunk]))
+    out.extend(env.parallel(stage2, tasks, pin=True))
+    return out
